@@ -24,6 +24,8 @@ func main() {
 		cmdAudit(os.Args[2:])
 	case "implscan":
 		cmdImplScan(os.Args[2:])
+	case "locals":
+		cmdLocals(os.Args[2:])
 	default:
 		fmt.Fprintln(os.Stderr, "unknown command")
 		os.Exit(2)
